@@ -416,3 +416,23 @@ def unroll_literal_loops(fn, max_rows: int = 12):
     if not changed[0]:
         return fn
     return replace(fn, node=ast.fix_missing_locations(root))
+
+
+def fold_literal_concat(fn):
+    """FuncInfo like `fn` in which `(a, b) + (c, d)` / `[a] + [b]` (tables joined at the place of use) are written as one display"""
+    import copy
+    from dataclasses import replace
+
+    changed = [False]
+
+    class Join(ast.NodeTransformer):
+        def visit_BinOp(self, node):
+            self.generic_visit(node)
+            if isinstance(node.op, ast.Add) and isinstance(node.left, (ast.Tuple, ast.List)) and type(node.left) is type(node.right) \
+                    and not any(isinstance(x, ast.Starred) for x in node.left.elts + node.right.elts):
+                changed[0] = True
+                return ast.copy_location(type(node.left)(elts=list(node.left.elts) + list(node.right.elts), ctx=ast.Load()), node)
+            return node
+
+    new = Join().visit(copy.deepcopy(fn.node))
+    return replace(fn, node=ast.fix_missing_locations(new)) if changed[0] else fn
